@@ -1,55 +1,92 @@
 (* C12 -- Bidirectional sync is a correct three-way merge across any history.
-   The full statement is false of the faithful model: C12_resurrects and C12_reverts_edit are
-   witnesses of length 4 (known findings C12-KF1, C12-KF2).  Proved: the idle sync is a no-op, and a
-   deletion on the side that received the copy propagates. *)
+   The model follows the repaired state recording (see C11.v). *)
 From Coq Require Import NArith ZArith List Bool Lia.
 From SyModel Require Import Bisync.
 From SyProofs Require Import Bisync_proofs.
-From SyProps Require Import C11.
 Import ListNotations.
 
-Lemma action_of_at st w1 w2 p : at_ w1 p = at_ w2 p -> action_of st w1 p = action_of st w2 p.
-Proof. unfold at_, action_of. intro E. inversion E as [[E1 E2 E3 E4]]. rewrite E1, E2, E3, E4. reflexivity. Qed.
+(* Across ANY sequence of edits (create / overwrite with any size and content, delete, touch, on either side, on any path) and
+   syncs (any strategy, any deletion limit, refused or not) the database stays truthful at every path of the universe: a side that is unmodified with respect to its row still holds the recorded common version.  Times are a logical
+   clock: every edit and every sync is later than everything before it. *)
+Theorem C12_history_invariant : forall U, NoDup U -> conflict_names_outside U -> forall h p, In p U ->
+  good (fst (run_history U h)) (snd (run_history U h)) p.
+Proof. exact history_good. Qed.
+Print Assumptions C12_history_invariant.
 
-(* a deleted file is resurrected: create on the left, sync, delete on the left, sync *)
-Theorem C12_resurrects :
-  exists h, h = [Edit Source 4 (Create 3 111); Sync Newer 0; Edit Source 4 Delete; Sync Newer 0] /\
-            w_src (snd (run_history [4%N] h)) 4%N <> None.
-Proof. eexists. split; [reflexivity|]. vm_compute. discriminate. Qed.
-Print Assumptions C12_resurrects.
+(* ... and never leave a row for one side only *)
+Theorem C12_rows_come_in_pairs : forall U, NoDup U -> conflict_names_outside U -> forall h p, In p U ->
+  paired (snd (run_history U h)) p.
+Proof. exact history_paired. Qed.
+Print Assumptions C12_rows_come_in_pairs.
 
-(* a one-sided edit is reverted under --conflict-resolve source *)
-Theorem C12_reverts_edit :
-  exists h, h = [Edit Source 4 (Create 3 111); Sync Newer 0; Edit Dest 4 (Create 5 222); Sync PreferSource 0] /\
-            option_map f_content (w_dst (snd (run_history [4%N] h)) 4%N) = Some 111%N.
-Proof. eexists. split; [reflexivity|]. vm_compute. reflexivity. Qed.
-Print Assumptions C12_reverts_edit.
+(* the invariant survives the loss of rows (a database written by an interrupted run or by an earlier version of sy, which
+   recorded one side per action); excluded are only files written with a time stamp of the writer's choosing, which can make
+   an edited file look like the recorded one *)
+Theorem C12_history_invariant_with_row_loss : forall U, NoDup U -> conflict_names_outside U ->
+  forall h, (forall x, In x h -> no_backdated_write x) ->
+  forall p, In p U -> good (fst (run_xhistory U h)) (snd (run_xhistory U h)) p.
+Proof. exact xhistory_good. Qed.
+Print Assumptions C12_history_invariant_with_row_loss.
 
-(* "a sync with no intervening change performs no action": for every pair of trees, every strategy pair,
-   the sync that follows a first sync plans nothing on every path that was not renamed as a conflict *)
-Theorem C12_idle_is_noop : forall U st st2 now w w',
-  NoDup U -> conflict_names_outside U -> (forall p, In p U -> no_rows w p) ->
-  bisync U st 0 now w = Some w' ->
-  forall p, In p U -> action_of st w p <> Some RenameConflict -> action_of st2 w' p = None.
+(* A change made on exactly one side since the last sync -- the other side still is the recorded version -- is propagated to
+   the other side whatever the conflict strategy: an edit is not reverted, a deleted file is not resurrected *)
+Theorem C12_source_change_propagates : forall st now w p, changed_on_source_only w p ->
+  w_src (path_sync st now w p) p = w_src w p /\ same_content (w_dst (path_sync st now w p) p) (w_src w p) = true.
+Proof. exact source_change_propagates. Qed.
+Print Assumptions C12_source_change_propagates.
+
+Theorem C12_dest_change_propagates : forall st now w p, changed_on_dest_only w p ->
+  w_dst (path_sync st now w p) p = w_dst w p /\ same_content (w_src (path_sync st now w p) p) (w_dst w p) = true.
+Proof. exact dest_change_propagates. Qed.
+Print Assumptions C12_dest_change_propagates.
+
+(* ... spelled out over whole syncs: sync, then ANY edit on the source side of p (create, overwrite, delete, touch), then a sync
+   with any strategy: afterwards both sides hold what the source held *)
+Theorem C12_edit_after_sync_propagates : forall U st1 m1 st2 m2 t w w1 w3 p e,
+  NoDup U -> conflict_names_outside U -> In p U -> good t w p ->
+  bisync U st1 m1 (t + 1) w = Some w1 ->
+  let w2 := mk_world (apply_edit (t + 2) (w_src w1) p e) (w_dst w1) (w_dbs w1) (w_dbd w1) in
+  (w_src w1 p = None -> e <> Touch /\ e <> Delete) ->
+  bisync U st2 m2 (t + 3) w2 = Some w3 ->
+  w_src w3 p = w_src w2 p /\ same_content (w_dst w3 p) (w_src w2 p) = true.
+Proof. exact edit_after_sync_propagates. Qed.
+Print Assumptions C12_edit_after_sync_propagates.
+
+(* Only paths changed on BOTH sides are treated as conflicts *)
+Theorem C12_conflict_needs_both_sides : forall s d rs rd c,
+  classify s d (Some rs) (Some rd) = Some c -> is_conflict c = true ->
+  (match s with Some x => is_modified x rs = true | None => True end) /\
+  (match d with Some y => is_modified y rd = true | None => True end) /\ (s <> None \/ d <> None).
+Proof. exact conflict_needs_both_sides. Qed.
+Print Assumptions C12_conflict_needs_both_sides.
+
+(* A sync with no intervening change performs no action, whatever the strategy *)
+Theorem C12_idle_is_noop : forall U st maxdel st2 t w w' p,
+  NoDup U -> conflict_names_outside U -> In p U -> good t w p -> bisync U st maxdel (t + 1) w = Some w' ->
+  action_of st2 w' p = None.
 Proof.
-  intros U st st2 now w w' Hnd Hout Hhyp Hb p Hp Hnr. unfold bisync in Hb. cbn [limit_exceeded N.eqb] in Hb. inversion Hb; subst w'. clear Hb.
-  assert (Hat : at_ (fold_left (sync_step st now w) U w) p = at_ (sync_step st now w w p) p).
-  { apply (fold_at st now w U w p Hnd Hp). intros p' a' Hp' Hne Ea. eapply (others_dont_touch U st w p p Hout Hp (or_introl eq_refl)); eassumption. }
-  rewrite (action_of_at st2 _ _ p Hat). apply idle_after_first_sync_path; [apply Hhyp; exact Hp | exact Hnr].
+  intros U st maxdel st2 t w w' p Hnd Hc Hp Hg Hb. destruct (bisync_keeps_good U st maxdel t w w' p Hnd Hc Hp Hg Hb) as (_ & Hf & _).
+  apply fresh_no_action. exact Hf.
 Qed.
 Print Assumptions C12_idle_is_noop.
 
-(* a deletion made on the side that received the copy is propagated (not resurrected), whatever the strategy *)
-Theorem C12_delete_on_receiving_side_propagates : forall st now s r,
-  let w1 := mk_world (fun p => if N.eqb p 4 then Some s else None) (fun _ => None) (fun _ => None)
-                     (fun p => if N.eqb p 4 then Some r else None) in
-  action_of st w1 4%N = Some DeleteFromSource /\
-  w_src (exec now w1 4%N DeleteFromSource) 4%N = None.
-Proof. intros st now s r. split; [destruct st; reflexivity | reflexivity]. Qed.
-Print Assumptions C12_delete_on_receiving_side_propagates.
+(* non-vacuity: the two histories that went wrong on the pinned commit *)
+Example ex_deleted_file_is_not_resurrected :
+  let h := [Edit Source 4 (Create 3 7); Sync Newer 0; Edit Source 4 Delete; Sync PreferDest 0] in
+  let w := snd (run_history [4]%N h) in w_src w 4%N = None /\ w_dst w 4%N = None.
+Proof. vm_compute. split; reflexivity. Qed.
+Example ex_one_sided_edit_is_not_reverted :
+  let h := [Edit Source 4 (Create 3 7); Sync Newer 0; Edit Dest 4 (Create 3 9); Sync PreferSource 0] in
+  let w := snd (run_history [4]%N h) in
+  match w_src w 4%N, w_dst w 4%N with Some a, Some b => f_content a = 9%N /\ f_content b = 9%N | _, _ => False end.
+Proof. vm_compute. split; reflexivity. Qed.
 
-(* non-vacuity of C12_idle_is_noop: a mixed tree *)
-Example ex_idle : match bisync [4;8;12]%N Larger 0 100 wA with
-                  | Some w1 => actions_of [4;8;12]%N Smaller w1 = [] /\ actions_of [4;8;12]%N Larger wA <> []
-                  | None => False end.
-Proof. vm_compute. split; [reflexivity | discriminate]. Qed.
+(* Known finding C12-KF4: no checksum of the common version is kept, so a touch -- or a rewrite with the same bytes -- is a
+   modification for the classifier; with a real edit on the other side the path is a conflict and `source` keeps the touched,
+   content-wise unchanged, version: the other side's edit is discarded *)
+Theorem C12_touch_is_a_modification :
+  let h := [Edit Source 4 (Create 3 7); Sync PreferSource 0; Edit Source 4 Touch; Edit Dest 4 (Create 3 9); Sync PreferSource 0] in
+  let w := snd (run_history [4]%N h) in
+  match w_src w 4%N, w_dst w 4%N with Some a, Some b => f_content a = 7%N /\ f_content b = 7%N | _, _ => False end.
+Proof. vm_compute. split; reflexivity. Qed.
+Print Assumptions C12_touch_is_a_modification.
